@@ -403,10 +403,14 @@ def _gen_eval(rng, max_stages, p_bad=0.25, calls=True):
 
     def node(depth):
         r = rng.random()
-        if r < 0.30:
+        if r < 0.26:
             h = S.SD("xref", None, form="tag")
             holes.append(h)
             return h
+        if r < 0.30:
+            # an evaluated expression consuming a top-level entry: `!eval <name>` (AyEval.tla: ref = that key)
+            k = rng.choice(keys + (["zz"] if rng.random() < p_bad else []))
+            return S.SD("eval", ["s", k], ref=[S.skey(k)], form="tag")
         if calls and r < 0.45:
             n = rng.randint(0, 2)
             fn = rng.choice(["vmod.rec", "vmod.rec", "vmod.recnone", "vmod.reclist"])
@@ -447,7 +451,7 @@ def _gen_eval_good(rng, max_stages):
 
 def _eval_nontrivial(docs):
     def f(sd):
-        return sd["k"] in ("xref", "call", "bind") or any(f(c) for _, c in sd["ch"])
+        return sd["k"] in ("xref", "call", "bind", "eval") or any(f(c) for _, c in sd["ch"])
     return any(f(d) for d in docs)
 
 
@@ -481,8 +485,11 @@ def _gen_c07(rng, max_stages):
                 return unsafe(S.SD(rng.choice(["call", "call", "bind"]), None, args, fn=name("fn"), form="tag"))
             if r < 0.62:
                 return S.SD("import", ["s", name("fn")], form="tag")
-            if r < 0.75:
+            if r < 0.72:
                 return S.SD("xref", None, ref=[S.skey(rng.choice(["f", "d", "e"]))], form="tag")
+            if r < 0.75:
+                k = rng.choice(["f", "d", "e"])
+                return unsafe(S.SD("eval", ["s", k], ref=[S.skey(k)], form="tag"))
             if r < 0.85 and depth > 0:
                 return unsafe(S.mapping([(k, value(depth - 1)) for k in rng.sample(["a", "b"], rng.randint(0, 2))]))
             if r < 0.9:
@@ -508,7 +515,8 @@ def _c07_nontrivial(docs):
 EVAL = {
     "C09": {
         "invariants": ["Inv_C09", "StepBound"],
-        "exh": {"quick": [("EU_C09_DocsS", 1, 1), ("EU_C09_DocsC", 1, 1)], "thorough": [("EU_C09_Docs", 1, 1), ("EU_C09_DocsC", 1, 1)]},
+        "exh": {"quick": [("EU_C09_DocsS", 1, 1), ("EU_C09_DocsC", 1, 1), ("EU_C10_DocsE", 1, 1)],
+                "thorough": [("EU_C09_Docs", 1, 1), ("EU_C09_DocsC", 1, 1), ("EU_C10_DocsE", 1, 1)]},
         "liveness": {"quick": [("EU_C09_DocsS", 1, 1)], "thorough": [("EU_C09_DocsS", 1, 1)]},
         "mutations": [{"switch": "NoCycleCheck", "docs": "EU_C09_DocsS", "stages": (1, 1), "expect": ["Terminates"]},
                       {"mutation": "CopyOnXRef", "docs": "EU_C09_DocsS", "stages": (1, 1), "expect": ["Inv_C09"]}],
@@ -523,9 +531,10 @@ EVAL = {
     },
     "C10": {
         "invariants": ["Inv_C10", "StepBound"],
-        "exh": {"quick": [("EU_C10_DocsS", 1, 1), ("EU_C10_Hist", 2, 2, "EU_C10_HistRange")],
-                "thorough": [("EU_C10_Docs", 1, 1), ("EU_C10_Hist", 2, 2, "EU_C10_HistRange")]},
-        "mutations": [{"mutation": "NoIdCache", "docs": "EU_C10_DocsS", "stages": (1, 1), "expect": ["Inv_C10"]}],
+        "exh": {"quick": [("EU_C10_DocsS", 1, 1), ("EU_C10_DocsE", 1, 1), ("EU_C10_Hist", 2, 2, "EU_C10_HistRange")],
+                "thorough": [("EU_C10_Docs", 1, 1), ("EU_C10_DocsE", 1, 1), ("EU_C10_Hist", 2, 2, "EU_C10_HistRange")]},
+        "mutations": [{"mutation": "NoIdCache", "docs": "EU_C10_DocsS", "stages": (1, 1), "expect": ["Inv_C10"]},
+                      {"mutation": "EvalLeaksPlaceholder", "docs": "EU_C10_DocsE", "stages": (1, 1), "expect": ["Inv_C10"]}],
         "gen": _gen_eval, "random": {"quick": 1500, "thorough": 25000}, "max_stages": 2,
         "nontrivial": _eval_nontrivial,
         "rule": "A: every config with one to three recording !call nodes consumed by references, call arguments, list and mapping "
@@ -536,8 +545,9 @@ EVAL = {
     "C11": {
         "invariants": ["Inv_C11"],
         "lifecycle": True, "max_evals": 2, "issues_matter": True,
-        "exh": {"quick": [("EU_C10_DocsS", 1, 1)], "thorough": [("EU_C10_Docs", 1, 1), ("EU_C09_DocsS", 1, 1)]},
-        "mutations": [{"mutation": "EvalSharesHeap", "docs": "EU_C10_DocsS", "stages": (1, 1), "expect": ["Inv_C11"], "max_evals": 2}],
+        "exh": {"quick": [("EU_C10_DocsS", 1, 1), ("EU_C10_DocsE", 1, 1)], "thorough": [("EU_C10_Docs", 1, 1), ("EU_C09_DocsS", 1, 1), ("EU_C10_DocsE", 1, 1)]},
+        "mutations": [{"mutation": "EvalSharesHeap", "docs": "EU_C10_DocsS", "stages": (1, 1), "expect": ["Inv_C11"], "max_evals": 2},
+                      {"mutation": "EvalLeaksPlaceholder", "docs": "EU_C10_DocsE", "stages": (1, 1), "expect": ["Inv_C11"], "max_evals": 2}],
         "gen": _gen_eval_good, "random": {"quick": 1500, "thorough": 25000}, "max_stages": 2,
         "nontrivial": _eval_nontrivial,
         "rule": "A: the C10 configs built and evaluated, then the kept source evaluated again and an earlier result mutated (TLC: Again / "
